@@ -20,7 +20,7 @@ PROPERTY = "C15"
 NUM = 15
 RULE = ("cases = histories of 3-12 steps over a pool of settings objects of all eight classes: construct (defaults / explicit "
         "values drawn per attribute type: arrays, lists, tuples, None, numbers, strings, dicts), mutate in place (list element, "
-        "dict entry, array element), assign an attribute, save, load into a fresh object or into one already holding other explicit values, dispatch-read, process/preprocess "
+        "dict entry, array element; also of a value the caller once handed to a constructor), construct a second object from the same argument objects, assign an attribute, save, load into a fresh object or into one already holding other explicit values, dispatch-read, process/preprocess "
         "with original and reloaded settings; non-trivial = the history holds an in-place mutation followed by a later "
         "construction, or a save/load of explicit values; distinct = (class sequence, step kinds) signatures")
 ASSUMPTIONS = [
@@ -120,7 +120,7 @@ def construct(rng, cname, explicit):
             continue
         if rng.random() < 0.7:
             kw[p] = gen_value(rng, p)
-    return cls(**copy.deepcopy(kw)), kw
+    return cls(**kw), kw            # the caller's own argument objects go in: the object must not keep them
 
 
 def mutate_in_place(rng, st):
@@ -211,21 +211,44 @@ def fam_history(ctx, rng):
     d = tempfile.mkdtemp(prefix="c15-", dir=os.environ.get("HVMON_SCRATCH"))
     files = []
     mutated_before_construct = False
+    kept_args = []
     saw_mutation = False
     explicit_roundtrip = False
     try:
         nsteps = int(rng.integers(3, 13))
         for step in range(nsteps):
-            op = str(rng.choice(["construct-default", "construct-explicit", "mutate", "assign", "save-load", "dispatch", "process"]))
+            op = str(rng.choice(["construct-default", "construct-explicit", "mutate", "assign", "save-load", "dispatch", "process",
+                                 "construct-from-same-arguments", "edit-constructor-argument"]))
+            if op in ("construct-from-same-arguments", "edit-constructor-argument") and not kept_args:
+                op = "construct-explicit"
             if not pool:
                 op = "construct-explicit" if rng.random() < 0.5 else "construct-default"
             info = dict(step=step, op=op, classes=names[-4:], kinds=kinds[-6:])
-            if op.startswith("construct"):
+            if op == "edit-constructor-argument":
+                # the caller goes on using (and editing in place) a value it once handed to a constructor
+                cname_, kw_ = kept_args[int(rng.integers(0, len(kept_args)))]
+                leaves = [v for v in kw_.values() if isinstance(v, (list, dict, np.ndarray))]
+                leaves += [x for v in kw_.values() if isinstance(v, dict) for x in v.values() if isinstance(x, (list, np.ndarray))]
+                if not leaves:
+                    continue
+                snap.poke(leaves[int(rng.integers(0, len(leaves)))])
+                saw_mutation = True
+                info["edited_argument_of"] = cname_
+            elif op.startswith("construct"):
                 cname = CLASSES[int(rng.integers(0, len(CLASSES)))]
-                st, kw = construct(rng, cname, op == "construct-explicit")
+                if op == "construct-from-same-arguments":
+                    # a second object of the same class from the very same argument objects
+                    cname, kw = kept_args[int(rng.integers(0, len(kept_args)))]
+                    kw_now = snap.norm(kw)                    # (the caller may have edited them since)
+                    st = getattr(hvsrpy, cname)(**kw)
+                else:
+                    st, kw = construct(rng, cname, op == "construct-explicit")
+                    kw_now = snap.norm(kw)
+                    if kw:
+                        kept_args.append((cname, kw))
                 want = copy.deepcopy(PRISTINE[cname])
-                for k, v in kw.items():
-                    want[k] = snap.norm(v)
+                for k, v in kw_now.items():
+                    want[k] = v
                 pool.append(st)
                 shadow.append(want)
                 names.append(cname)
